@@ -5,7 +5,10 @@
    rejection — plus the native queries on the common pre-state.  The model must predict chain A's outcome: success,
    returned boolean, the receipt's Delegate/Undelegate/WithdrawReward logs in order, and it must have issued exactly
    the scripted messages (a message the driver did not foresee makes the scripted native step fail).
-   ViewCase: a view method on A against the native queries. *)
+   ViewCase: a view method on A against the native queries.
+   KMulti: one transaction whose contract makes several precompile calls, views among them: every item carries the native
+   side as chain B showed it AT THAT POINT (after the native submissions of the items before it); the model's [item_A] must
+   predict every call's success and every view's number, and the receipt's logs as a whole. *)
 From Coq Require Import List ZArith Bool.
 From Evm Require Import StakingCpc CorrBase.
 Import ListNotations.
@@ -53,7 +56,7 @@ Definition o_native (s : ostate) (m : nmsg) : option (ostate * list nevent) :=
 Record op_case := OpCase {
   k_sender : Z; k_path : list hop; k_call : call;
   k_rec : option Z;                      (* signer recovered (independently) from the signature for THIS chain's id *)
-  k_rewards : list (Z * Z); k_total_zero : bool;
+  k_rewards : list (Z * coins); k_total_zero : bool;
   k_delegated : list vinfo; k_bonded : list vinfo;
   k_bal0 : Z;
   k_script : list (nmsg * option (list nevent * Z));
@@ -75,7 +78,7 @@ Definition op_ok (k : op_case) : bool :=
   end.
 
 Record view_case := ViewCase {
-  w_view : view; w_deleg_tokens : qres; w_bonded_total : qres; w_reward : qres; w_rewards_total : qres; w_balance : Z;
+  w_view : view; w_deleg_tokens : qres; w_bonded_total : qres; w_reward : qresc; w_rewards_total : qresc; w_balance : Z;
   w_obs : option Z }.   (* None = the view call failed *)
 
 Definition optz_eqb (a b : option Z) : bool :=
@@ -85,28 +88,52 @@ Definition view_ok (w : view_case) : bool :=
   optz_eqb (view_step unit (fun _ _ => w_balance w) (fun _ _ _ => w_deleg_tokens w) (fun _ _ => w_bonded_total w)
                       (fun _ _ _ => w_reward w) (fun _ _ => w_rewards_total w) tt (w_view w)) (w_obs w).
 
-(* several calls in one transaction (the contract does not revert when a call fails): per call, model and observation
-   must agree on success and the scripted messages must have been consumed; the receipt's logs are the concatenation of
-   the successful calls' logs in order *)
-Definition sub_logs (k : op_case) : option (list log) :=
-  match model_step k with
-  | Some (s', logs, _, _) =>
-      if obs_ok k && (match o_script s' with [] => true | _ => false end) then Some logs else None
-  | None => if obs_ok k then None else Some []
+(* several calls in one transaction (the contract does not revert when a call fails), views among them.  Every item is
+   run through the model's [item_A] with the native side of THAT point of the transaction: a call must succeed exactly
+   when observed (its scripted messages consumed, the returned flag as observed), a view must return the observed number;
+   the receipt's logs are the concatenation of the items' logs in order *)
+Inductive multi_item := MOp (k : op_case) | MView (w : view_case).
+
+Definition item_model (i : multi_item) : ostate * tobs * list nmsg :=
+  match i with
+  | MOp k =>
+      item_A ostate o_native
+        (fun _ _ => (k_rewards k, k_total_zero k)) (fun s _ => o_bal s)
+        (fun _ _ => k_delegated k) (fun _ => k_bonded k)
+        0 (fun _ _ => 0) (fun _ _ => k_rec k)
+        (fun _ _ _ => QErr) (fun _ _ => QErr) (fun _ _ _ => QcErr) (fun _ _ => QcErr)
+        (OState (k_script k) (k_bal0 k)) (precompile_caller (k_sender k) (k_path k)) (ICall (k_call k))
+  | MView w =>
+      item_A ostate o_native
+        (fun _ _ => ([], true)) (fun _ _ => w_balance w) (fun _ _ => []) (fun _ => [])
+        0 (fun _ _ => 0) (fun _ _ => None)
+        (fun _ _ _ => w_deleg_tokens w) (fun _ _ => w_bonded_total w) (fun _ _ _ => w_reward w) (fun _ _ => w_rewards_total w)
+        (OState [] 0) 0 (IView (w_view w))
   end.
 
-Fixpoint multi_logs (l : list op_case) : option (list log) :=
+Definition item_logs (i : multi_item) : option (list log) :=
+  match i, item_model i with
+  | MOp k, (s', TCall ok logs, _) =>
+      if Bool.eqb ok (obs_ok k) &&
+         (negb ok || (match o_script s' with [] => true | _ => false end) &&
+                     (match model_step k with Some (_, _, ret, _) => Bool.eqb ret (obs_ret k) | None => false end))
+      then Some logs else None
+  | MView w, (_, TView r, _) => if optz_eqb r (w_obs w) then Some [] else None
+  | _, _ => None
+  end.
+
+Fixpoint multi_logs (l : list multi_item) : option (list log) :=
   match l with
   | [] => Some []
-  | k :: r => match sub_logs k, multi_logs r with Some a, Some b => Some (a ++ b) | _, _ => None end
+  | k :: r => match item_logs k, multi_logs r with Some a, Some b => Some (a ++ b) | _, _ => None end
   end.
 
-Definition multi_ok (subs : list op_case) (logs : list log) : bool :=
-  match multi_logs subs with Some l => logs_eqb l logs | None => false end.
+Definition multi_ok (items : list multi_item) (logs : list log) : bool :=
+  match multi_logs items with Some l => logs_eqb l logs | None => false end.
 
-Inductive sk_case := KOp (k : op_case) | KView (w : view_case) | KMulti (subs : list op_case) (logs : list log).
+Inductive sk_case := KOp (k : op_case) | KView (w : view_case) | KMulti (items : list multi_item) (logs : list log).
 
 Definition sk_ok (c : sk_case) : bool :=
-  match c with KOp k => op_ok k | KView w => view_ok w | KMulti subs logs => multi_ok subs logs end.
+  match c with KOp k => op_ok k | KView w => view_ok w | KMulti items logs => multi_ok items logs end.
 
 Definition sk_mismatches (off : nat) (l : list sk_case) : list nat := mism sk_ok off l.
